@@ -207,10 +207,42 @@ def judge(case) -> Verdict:
     kw = dict(platform=platform)
     if group_by:
         kw["group_by"] = group_by
-    detail = {"platform": platform, "config": config, "names": names, "group_by": group_by}
+    opts = case.get("opts") or {}
+    for key in ("port_nr", "protocol_nr", "indent", "version", "max_ncwb"):
+        if key in opts:
+            kw[key] = opts[key]
+    if not isinstance(kw.get("indent", " "), str) or kw.get("indent", " ").strip(" \t") or \
+            kw.get("max_ncwb", 16) not in range(4, 31) or kw.get("version", "0") not in ("0", "15.2(02)SY", "16.09.06", "9.3(8)"):
+        raise Invalid()
+    detail = {"platform": platform, "config": config, "names": names, "group_by": group_by, "kwargs": opts}
     got = cisco_acl.acls(config, names=names, **kw) if names is not None else cisco_acl.acls(config, **kw)
     want = [w for w in want_acls if names is None or w["name"] in names]
     compare_acls(v, case, got, want, "acls", detail)
+    for a in got:
+        if "indent" in opts and (a.indent != opts["indent"] or any(not ln.startswith(opts["indent"]) for ln in a.line.split("\n")[1:])):
+            v.fail("acls:indent-kwarg-not-applied", dict(detail, acl=a.line))
+        if bool(a.port_nr) != bool(opts.get("port_nr")) or bool(a.protocol_nr) != bool(opts.get("protocol_nr")):
+            v.fail("acls:switch-kwarg-not-applied", dict(detail, got=[a.port_nr, a.protocol_nr]))
+        if str(a.version).lower() != str(opts.get("version", "0")).lower():
+            v.fail("acls:version-kwarg-not-applied", dict(detail, got=str(a.version)))
+        if opts.get("port_nr") or opts.get("protocol_nr"):
+            for ln in a.line.split("\n")[1:]:
+                toks = ln.split()
+                if toks and toks[0].isdigit():
+                    toks = toks[1:]
+                if not toks or toks[0] == "remark":
+                    continue
+                if opts.get("port_nr"):
+                    for i, t in enumerate(toks):
+                        if t in R.OPERATORS:
+                            j = i + 1
+                            while j < len(toks) and (toks[j].isdigit() or toks[j] in G.lib_port_names(6, platform) or toks[j] in G.lib_port_names(17, platform)):
+                                if not toks[j].isdigit():
+                                    v.fail("acls:port_nr-renders-name", dict(detail, line=ln))
+                                j += 1
+                has_port = any(t in R.OPERATORS for t in toks)
+                if opts.get("protocol_nr") and not has_port and len(toks) > 1 and not toks[1].isdigit():
+                    v.fail("acls:protocol_nr-renders-name", dict(detail, line=ln))
     if v.fails:
         return v
     # aces(): concatenation of all ACL bodies in config order
@@ -240,6 +272,11 @@ def judge(case) -> Verdict:
     if not v.fails:
         config2 = render_config(case, extra_indent=case.get("reindent", 2), comments=True)
         got2 = cisco_acl.acls(config2, names=names, **kw) if names is not None else cisco_acl.acls(config2, **kw)
+        agr = cisco_acl.addrgroups(config2, platform=platform, indent=opts.get("indent", "  "))
+        if [g.name for g in agr] != [g.name for g in grs] or [[o.line for o in g.items] for g in agr] != [[o.line for o in g.items] for g in grs]:
+            v.fail("metamorphic:addrgroups-change-with-reindent", dict(detail, config2=config2))
+        if "indent" in opts and any(g.indent != opts["indent"] for g in agr):
+            v.fail("addrgroups:indent-kwarg-not-applied", detail)
         if [(a.line, a.input, a.output) for a in got2] != [(a.line, a.input, a.output) for a in got]:
             v.fail("metamorphic:reindent-or-comments-change-result", dict(detail, config2=config2))
     nb = sum(len(s.get("bind") or []) for s in case["sections"] if s["s"] == "intf")
@@ -295,7 +332,15 @@ def config_st(draw, tier):
         near = [n + "0" for n in acl_names] + ["x" + n for n in acl_names] + [n[:-1] for n in acl_names if len(n) > 1]
         names = draw(st.lists(st.sampled_from(acl_names + near + ["NOPE"]), max_size=3, unique=True))
     prefix = sections[0]["acl"]["prefix"] if sections and sections[0]["s"] == "acl" else "= "
-    return {"platform": platform, "sections": list(sections), "names": names,
+    opts = {}
+    if draw(st.booleans()):
+        for key, strat in (("port_nr", st.booleans()), ("protocol_nr", st.booleans()),
+                           ("indent", st.sampled_from([" ", "  ", "   ", "\t"])),
+                           ("version", st.sampled_from(["0", "15.2(02)SY", "16.09.06", "9.3(8)"])),
+                           ("max_ncwb", st.sampled_from([8, 16, 30]))):
+            if draw(st.booleans()):
+                opts[key] = draw(strat)
+    return {"platform": platform, "sections": list(sections), "names": names, "opts": opts,
             "group_by": draw(st.sampled_from(["", "", prefix])), "reindent": draw(st.integers(1, 3))}
 
 
